@@ -180,30 +180,48 @@ def rule_q3_q4(repo, col):
 
 
 def rule_q5(repo, col):
-    """every goal grounded under an evidence (or query) label by ground_evidence / ground_queries is grounded as a root: a non-root goal is replaced by the value that evidence
-    propagation recorded for it on this target (EvalDefine.notifyResult / propagate_evidence), so on a target that was already grounded once the evidence atom collapses to TRUE"""
+    """every goal grounded under an evidence label is grounded as a root: a non-root goal is replaced by the value that evidence propagation recorded for it on this target
+    (EvalDefine.notifyResult / propagate_evidence), so on a target that was already grounded once the evidence atom collapses to TRUE"""
+    from .. import dtable
+
     n = 0
+    labels_seen = set()
     for f in repo.all_functions():
         m = f.module
         if not m.name.startswith("problog.engine"):
             continue
-        if True:
-            for c in walk_no_nested(f.node):
-                if not (isinstance(c, ast.Call) and isinstance(c.func, ast.Attribute) and c.func.attr == "ground" and norm(c.func.value) == "self"):
-                    continue
-                kws = {k.arg: k.value for k in c.keywords}
-                lab = kws.get("label")
-                if lab is None or "LABEL_EVIDENCE" not in norm(lab):
-                    continue
-                n += 1
-                root = kws.get("is_root")
-                ok = root is not None and isinstance(root, ast.Constant) and root.value is True
-                col.decide("Q5", m, c, ok, "evidence goal grounded with is_root=True (%s)" % norm(lab),
-                           "%s grounds an evidence goal (label %s) %s: a non-root goal is answered through propagate_evidence, i.e. replaced by the value recorded in "
-                           "target.lookup_evidence - when the same target is grounded a second time the evidence atom is replaced by its own propagated value (TRUE) and the condition is "
-                           "silently lost, so the answer depends on what was grounded before" % (f.qualname, norm(lab), "without is_root" if root is None else "with is_root=%s" % norm(root)),
-                           construct="%s: self.ground(label=%s) is_root" % (f.qualname, norm(lab)), function=f.qualname)
-    col.floor("Q5.evidence_ground_sites", n, 5)
+        sites = [c for c in walk_no_nested(f.node) if isinstance(c, ast.Call) and isinstance(c.func, ast.Attribute) and c.func.attr == "ground" and norm(c.func.value) == "self"
+                 and any(k.arg == "label" for k in c.keywords)]
+        if not sites:
+            continue
+        direct = [c for c in sites if "LABEL_EVIDENCE" in norm([k.value for k in c.keywords if k.arg == "label"][0])]
+        indirect = [c for c in sites if c not in direct and isinstance([k.value for k in c.keywords if k.arg == "label"][0], ast.Name)]
+        obligations = []
+        for c in direct:
+            kws = {k.arg: k.value for k in c.keywords}
+            obligations.append((c, norm(kws["label"]), norm(kws["is_root"]) if "is_root" in kws else None))
+        if indirect:
+            # the label is a local: its values along the paths of the function (read through assignments)
+            for p_ in dtable.extract(f.node, opaque_loops=True):
+                for fn, a, node in p_.calls:
+                    if node in indirect:
+                        kws = {k.arg: k.value for k in node.keywords}
+                        lab = dtable.subst(kws["label"], p_.env)
+                        if "LABEL_EVIDENCE" in lab:
+                            obligations.append((node, lab, dtable.subst(kws["is_root"], p_.env) if "is_root" in kws else None))
+        seen = set()
+        for c, lab, root in obligations:
+            if (id(c), lab) in seen:
+                continue
+            seen.add((id(c), lab))
+            n += 1
+            labels_seen.add(lab.rsplit(".", 1)[-1])
+            col.decide("Q5", m, c, root == "True", "evidence goal grounded with is_root=True (%s)" % lab,
+                       "%s grounds an evidence goal (label %s) %s: a non-root goal is answered through propagate_evidence, i.e. replaced by the value recorded in "
+                       "target.lookup_evidence - when the same target is grounded a second time the evidence atom is replaced by its own propagated value (TRUE) and the condition is "
+                       "silently lost, so the answer depends on what was grounded before" % (f.qualname, lab, "without is_root" if root is None else "with is_root=%s" % root),
+                       construct="%s: self.ground(label=%s) is_root" % (f.qualname, lab), function=f.qualname)
+    col.floor("Q5.evidence_labels_covered", len(labels_seen), 3)
 
 
 def run(repo, col):
